@@ -26,7 +26,7 @@ variable {O A : Type}
 
 theorem isMonogamous_spec (f : OHG O A) (hwf : f.wf = true) :
     ∃ b, f.isMonogamous = .ok b ∧ (b = true ↔ Monogamous f.toPlain) := by
-  have hw := (OHG.wf_iff f).1 hwf
+  have hw := (OHG.wf_iff_Wf f).1 hwf
   obtain ⟨b, hb, hiff⟩ := OHG.isMonogamous_closed f hw
   refine ⟨b, hb, hiff.trans ?_⟩
   have hin := inDeg_eq_count f.h.w f.s.table f.t.table f.h hw.h
@@ -103,7 +103,7 @@ theorem inDegree_spec (h : HG O A) (hwf : h.wf = true) (v : Nat) (hv : v < h.w.l
     h.inDegree v = .ok (inDeg (plainOf h) v) ∧
     inDeg (plainOf h) v = (h.t.segs.map (fun l => l.count v)).sum ∧
     inDeg (plainOf h) v = h.t.values.table.count v := by
-  have hw := (HG.wf_iff h).1 hwf
+  have hw := (HG.wf_iff_Wf h).1 hwf
   have hc := inDeg_eq_count h.w [] [] h hw v
   have hti : ∀ x ∈ h.t.values.table, x < h.w.length := fun x hx => hw.ttgt ▸ hw.t.values x hx
   refine ⟨?_, ?_, hc⟩
@@ -117,7 +117,7 @@ theorem outDegree_spec (h : HG O A) (hwf : h.wf = true) (v : Nat) (hv : v < h.w.
     h.outDegree v = .ok (outDeg (plainOf h) v) ∧
     outDeg (plainOf h) v = (h.s.segs.map (fun l => l.count v)).sum ∧
     outDeg (plainOf h) v = h.s.values.table.count v := by
-  have hw := (HG.wf_iff h).1 hwf
+  have hw := (HG.wf_iff_Wf h).1 hwf
   have hc := outDeg_eq_count h.w [] [] h hw v
   have hsi : ∀ x ∈ h.s.values.table, x < h.w.length := fun x hx => hw.stgt ▸ hw.s.values x hx
   refine ⟨?_, ?_, hc⟩
@@ -135,8 +135,8 @@ theorem degree_out_of_range (h : HG O A) (v : Nat) (hv : ¬ v < h.w.length) :
 /-- the degrees of the open diagram `f.toPlain` are those of its hypergraph -/
 theorem degree_toPlain (f : OHG O A) (hwf : f.wf = true) (v : Nat) (hv : v < f.h.w.length) :
     f.h.inDegree v = .ok (inDeg f.toPlain v) ∧ f.h.outDegree v = .ok (outDeg f.toPlain v) := by
-  have hw := (OHG.wf_iff f).1 hwf
-  have hh : f.h.wf = true := (HG.wf_iff _).2 hw.h
+  have hw := (OHG.wf_iff_Wf f).1 hwf
+  have hh : f.h.wf = true := (HG.wf_iff_Wf _).2 hw.h
   rw [(inDegree_spec f.h hh v hv).1, (outDegree_spec f.h hh v hv).1]
   simp only [OHG.toPlain, plainOf, inDeg_eq_count _ _ _ f.h hw.h, outDeg_eq_count _ _ _ f.h hw.h,
     and_self]
